@@ -1,0 +1,16 @@
+//go:build verif
+
+package icmp_spoofer
+
+// VerifReset restores the package level state to its initial value.
+// Verification hook: only compiled with -tags verif.
+func VerifReset() {
+	repeat = -1
+}
+
+// VerifHuntLen returns the number of entries in the hunt list.
+func (h *Handler6) VerifHuntLen() int {
+	h.Lock()
+	defer h.Unlock()
+	return h.huntList.Len()
+}
